@@ -8,6 +8,7 @@
                                                    which `read_xrff` must ignore: they are not in the model)
     parse <delim> <trim> <keep> <hexbytes>
     sniff <hexbytes> [D …]
+    file <hexext> <delim> <hdr> <trim> <keep> <oidx> <hook> <hexbytes> X <doc tokens …> [D …]
     var  <delim> <hdr> <trim> <oidx> <typing> <hexbytes> [D …]
     var2 csv <delim> <hdr> <trim> <keep> <oidx> <hook> <typing> <data|ctor> <hexbytes> [D …]
     var2 xrff <hook> <typing> <doc tokens …> [D …]
@@ -270,6 +271,23 @@ def answerXrff (cfg : Cfg) (main : List String) (dict : Dict) : String :=
     | _, _ => "bad-op"
   | _ => "bad-op"
 
+/-- `file <hexext> <delim> <hdr> <trim> <keep> <oidx> <hook> <hexbytes> X <doc tokens>` -/
+def answerFile (cfg : Cfg) (main : List String) (dict : Dict) : String :=
+  match main with
+  | ext :: delim :: hdr :: trim :: keep :: oidx :: filt :: bytes :: "X" :: docToks =>
+    match unhex ext, makeParams delim hdr trim keep oidx, makeHook filt, unhex bytes, parseDoc docToks with
+    | some e, some p, some f, some b, some doc =>
+      let p := { p with hook := f }
+      let ms := missing dict (if isXrffExt e then docCells f doc else csvCells p (splitLines b))
+      if !ms.isEmpty then needStr ms
+      else match readFile cfg (oracle dict) p e b doc with
+        | .ok (df, ret) =>
+          let valid := match isValid df with | .ok v => v | .error _ => false
+          dump df ret valid
+        | .error e => errStr e
+    | _, _, _, _, _ => "bad-op"
+  | _ => "bad-op"
+
 def recsStr (rs : List (List Str)) : String :=
   s!"ok R {rs.length}" ++ String.join (rs.map (fun r => s!" {r.length}" ++ String.join (r.map (fun f => " " ++ hex f))))
 
@@ -360,6 +378,7 @@ def answer (line : String) : String :=
     | "xrff2" :: rest => answerXrff {} rest dict
     | "old" :: "csv" :: rest => answerCsv { guards := false } rest dict
     | "old" :: "xrff" :: rest => answerXrff { guards := false } rest dict
+    | "file" :: rest => answerFile {} rest dict
     | "var" :: rest => answerVar rest dict
     | "var2" :: rest => answerVar2 rest dict
     | ["parse", delim, trim, keep, bytes] =>
